@@ -5,8 +5,9 @@
    are any pair of functions with  marshal m = Some bs -> unmarshal bs = Some (norm_env m), where
    norm_env (Model/Proto.v) is what a Marshal/Unmarshal round trip does to a message tree: nil elements
    of repeated message fields and the nil inner message of a set oneof become empty messages, everything
-   else is unchanged.  `envelope_pwf` is what the protobuf encoder needs on top of the native format:
-   non-negative address-map keys and a state in a sync message. *)
+   else is unchanged.  `envelope_pwf` is what the protobuf serializer needs on top of the native format:
+   non-negative address-map keys, a state in a sync message, at most MaxNumParts peers in a virtual
+   channel proposal. *)
 From V Require Import Model.Proto Proofs.WireP Proofs.ChannelP Proofs.CodecP Proofs.ProtoP.
 
 (* conversions: to_T (norm (from_T v)) = Ok v for every well-formed v *)
